@@ -86,6 +86,24 @@ def run(facts, rep, tier, ctx):
                 k += 1
                 rep.ob(("A/" if asyncw else "") + "R16.3p", o["fn"], o["key"].split("|")[2], o["ok"], o["detail"], o["loc"])
         rep.floor("publication obligations (%s)" % w_.tag, k, 5)
+    # R16.6 operations that hand out a handle do not leave an intermediate state behind: append_file does not touch the stored
+    # entry, and a write handle (whose Drop publishes) is only built once nothing can fail any more — shared with C01 (Table M,
+    # R01.3)
+    from . import c01
+    for asyncw in (False, True):
+        w_ = World(facts, asyncw)
+        if not w_.present():
+            continue
+        scratch = Report("m")
+        found, n_, mm_ = c01.table_m(facts, scratch, "M", "Mk", self_ty=w_.memory, trait=w_.trait.rsplit("::", 1)[1], ops_filter=("append_file",))
+        c01.failed_primitive_unchanged(facts, scratch, "F", mm_)
+        k = 0
+        for o in scratch.obligations:
+            d = o["key"].split("|")[2]
+            if "the stored entry is not modified" in d or "write handle was built" in d:
+                k += 1
+                rep.ob(("A/" if asyncw else "") + "R16.6", o["fn"], d, o["ok"], o["detail"], o["loc"])
+        rep.floor("hand-out obligations (%s)" % w_.tag, k, 3)
     rep.assume("every access to the map goes through a guard (enforced by the type system: the map lives inside the RwLock)")
     rep.assume("per-call linearizability only: compositions in the path layer (get_parent + create_dir) are separate calls by design")
 
